@@ -363,14 +363,38 @@ func (cp *CollectingProcess) decodeDataSet(dataBuffer *bytes.Buffer, obsDomainID
 		return nil, err
 	}
 
+	// minRecordLen is the length of the shortest possible data record for this template: a
+	// variable-length field takes at least its one-byte length prefix.
+	minRecordLen := 0
+	for _, ie := range template {
+		if ie.Len == entities.VariableLength {
+			minRecordLen++
+		} else {
+			minRecordLen += int(ie.Len)
+		}
+	}
+	if minRecordLen == 0 && dataBuffer.Len() > 0 {
+		// No record can consume any byte: refuse instead of looping forever.
+		return nil, fmt.Errorf("template %d with obsDomainID %d defines zero-length records, cannot decode %d bytes of data", templateID, obsDomainID, dataBuffer.Len())
+	}
 	for dataBuffer.Len() > 0 {
+		if dataBuffer.Len() < minRecordLen {
+			// What remains is shorter than any record: it is set padding (RFC 7011 section 3.3.1).
+			break
+		}
 		elements := make([]entities.InfoElementWithValue, 0, len(template)+cp.numExtraElements)
 		for _, ie := range template {
 			var length int
 			if ie.Len == entities.VariableLength { // string / octet array
+				if b := dataBuffer.Bytes(); len(b) == 0 || (b[0] == 255 && len(b) < 3) {
+					return nil, fmt.Errorf("malformed data record: truncated length prefix of variable-length field %q", ie.Name)
+				}
 				length = getFieldLength(dataBuffer)
 			} else {
 				length = int(ie.Len)
+			}
+			if dataBuffer.Len() < length {
+				return nil, fmt.Errorf("malformed data record: field %q needs %d bytes, only %d left", ie.Name, length, dataBuffer.Len())
 			}
 			element, err := entities.DecodeAndCreateInfoElementWithValue(ie, dataBuffer.Next(length))
 			if err != nil {
